@@ -1,5 +1,6 @@
 import Lean.Data.Json
 import SpoxModel.Model.Prog
+import SpoxModel.Model.ProgUsed
 /-!
 Line-protocol handler for C01: the model side of the translation validation.
 
@@ -10,6 +11,11 @@ Request  `{"nodes": [[kind, label, [in…], [[args, results]…]]…]   (oldest 
                                    extracted from the real ModelProto)
            "vals":  [[v…]…],       actual main inputs (several bindings)
            "seed":  n,
+           "allArgs": [a…],        (optional) the caller's full input list, in the caller's order: the
+                                   answer then carries `used` = `usedArgs` of (allArgs, results) and
+                                   `dropValid` = `validG` of the emission against `dropUnused` of it,
+                                   `leaf` = `argsLeaf`, `argsOk` = every caller input `isArg` and `notFormal`
+                                   (the side conditions of `usedArgs_least`)
            "denote": bool}`        (false: skip `denoteG` — its cost is exponential in the number of
                                    body-bearing nodes, the harness skips it for the few huge programs)
 Response `{"wf", "valid", "runs": [{"eval": [v…] | null, "denote": [v…]}…]}` where `eval` is
@@ -95,10 +101,20 @@ def handle (req : Json) : Json :=
       let ev := evalG drvSem prog e (fun _ => none) vals
       Json.mkObj [("eval", match ev with | none => Json.null | some l => toJson l),
                   ("denote", if wantDenote then toJson (denoteG drvSem prog b main vals) else Json.null)]
-    return Json.mkObj [
+    let allArgs := match req.getObjVal? "allArgs" with
+      | .ok j => (parseNats j).toOption
+      | .error _ => none
+    let usedPart := match allArgs with
+      | none => []
+      | some aa =>
+        let full : PGraph := ⟨aa, main.results⟩
+        [("used", toJson (usedArgs prog full)), ("dropValid", toJson (validG prog e (dropUnused prog full) [])),
+         ("leaf", toJson (argsLeaf prog)),
+         ("argsOk", toJson (aa.all fun a => isArg prog a && notFormal prog a))]
+    return Json.mkObj ([
       ("wf", toJson (wfCheck prog)),
       ("valid", toJson (validG prog e main [])),
-      ("runs", Json.arr runs.toArray)]) with
+      ("runs", Json.arr runs.toArray)] ++ usedPart)) with
   | .ok j => j
   | .error e => Json.mkObj [("error", e)]
 
